@@ -87,19 +87,18 @@ theorem field_algo (st : Style) (env : PEnv) (v : Nat) (hv : v ≤ 255) :
   refine ⟨rfl, lexes_plain _ (natToDec_ne_nil v) (natToDec_plain v), ?_, notHash_plain _ (natToDec_plain v)⟩
   simp [parseField, unescapeCP_plain_all _ (natToDec_plain v), algoFromText_natToDec v hv]
 
-/-! ### character-strings (code-point path: exact below 0x80 only) -/
+/-! ### character-strings (octet path: `get_string_as_bytes`) -/
 
 theorem field_cstr_quoted (st : Style) (env : PEnv) (maxTok maxBytes : Option Nat) (s : Bytes)
-    (hs : ∀ c ∈ s, c < 128) (h1 : ∀ m, maxTok = some m → s.length ≤ m) (h2 : ∀ m, maxBytes = some m → s.length ≤ m) :
+    (hs : ∀ c ∈ s, c < 256) (h1 : ∀ m, maxTok = some m → s.length ≤ m) (h2 : ∀ m, maxBytes = some m → s.length ≤ m) :
     FieldRT st env (.cstr maxTok maxBytes true) (.b s) (quote (escapifyR s)) ⟨.quoted, escapifyR s⟩ := by
   have hesc := escROk_generated
-  have hs256 : ∀ c ∈ s, c < 256 := fun c hc => by have := hs c hc; omega
   refine ⟨by simp [printField], ?_, ?_, Or.inl rfl⟩
-  · have := lexes_quoted (escapifyR s) (quoteBody_escapify _ hesc s hs256)
+  · have := lexes_quoted (escapifyR s) (quoteBody_escapify _ hesc s hs)
     simpa [quote] using this
-  · have hu : unescapeCP (escapifyR s) = some s := unescapeCP_escapify _ hesc s hs256
-    have ha : asString maxTok ⟨.quoted, escapifyR s⟩ = some s := by
-      unfold asString
+  · have hu : unescapeBytes (escapifyR s) = some s := unescapeBytes_escapify _ hesc s hs
+    have ha : asStringBytes maxTok ⟨.quoted, escapifyR s⟩ = some s := by
+      unfold asStringBytes
       simp only [hu]
       cases maxTok with
       | none => rfl
@@ -107,9 +106,8 @@ theorem field_cstr_quoted (st : Style) (env : PEnv) (maxTok maxBytes : Option Na
         have := h1 m rfl
         have : ¬ (m ≠ 0 ∧ s.length > m) := by omega
         simp [this]
-    have he : encodeMax maxBytes s = some s := by
-      unfold encodeMax
-      simp only [utf8Encode_ascii s hs]
+    have he : bytesMax maxBytes s = some s := by
+      unfold bytesMax
       cases maxBytes with
       | none => rfl
       | some m =>
@@ -117,6 +115,68 @@ theorem field_cstr_quoted (st : Style) (env : PEnv) (maxTok maxBytes : Option Na
         have : ¬ s.length > m := by omega
         simp [this]
     simp [parseField, ha, he]
+
+/-- no alphanumeric character needs escaping (obligation on `dns.rdata._escaped`) -/
+def EscNoAlnum (esc : List Nat) : Prop := ∀ d ∈ esc, isAlnumC d = false
+
+instance (esc : List Nat) : Decidable (EscNoAlnum esc) := by unfold EscNoAlnum; exact inferInstance
+
+theorem escNoAlnum_generated : EscNoAlnum Consts.rdataEscaped := by decide
+
+theorem isAlnumC_facts (c : Nat) (h : isAlnumC c = true) : 0x20 ≤ c ∧ c < 0x7F ∧ isDelim c = false ∧ c ≠ 92 := by
+  simp [isAlnumC] at h
+  simp [isDelim]
+  omega
+
+theorem escapifyR_alnum (s : Bytes) (hs : ∀ c ∈ s, isAlnumC c = true) : escapifyR s = s := by
+  induction s with
+  | nil => rfl
+  | cons c cs ih =>
+    have hc := hs c (by simp)
+    have hne : c ∉ Consts.rdataEscaped := by
+      intro hm; have := escNoAlnum_generated c hm; rw [hc] at this; exact Bool.noConfusion this
+    obtain ⟨a, b, _, _⟩ := isAlnumC_facts c hc
+    have ih' := ih (fun x hx => hs x (by simp [hx]))
+    simp only [escapifyR, escapifyRWith, List.flatMap_cons] at ih' ⊢
+    rw [ih']
+    simp [escROctet, hne, a, b]
+
+theorem unescapeBytes_plain_ascii (s : List Nat) (h : Plain s) (ha : ∀ c ∈ s, c < 128) : unescapeBytes s = some s := by
+  induction s with
+  | nil => rfl
+  | cons c cs ih =>
+    have hc := h c (by simp)
+    have hu : utf8Char c = some [c] := by simp [utf8Char, ha c (by simp)]
+    rw [unescapeBytes_plain c hc.2, hu, ih (fun x hx => h x (by simp [hx])) (fun x hx => ha x (by simp [hx]))]
+    rfl
+
+/-- CAA tag: printed bare; alphanumeric, so it is its own escaped form -/
+theorem field_cstr_bare (st : Style) (env : PEnv) (maxTok maxBytes : Option Nat) (s : Bytes)
+    (hne : s ≠ []) (hs : ∀ c ∈ s, isAlnumC c = true) (h1 : ∀ m, maxTok = some m → s.length ≤ m)
+    (h2 : ∀ m, maxBytes = some m → s.length ≤ m) :
+    FieldRT st env (.cstr maxTok maxBytes false) (.b s) s ⟨.ident, s⟩ := by
+  have hpl : Plain s := fun c hc => ⟨(isAlnumC_facts c (hs c hc)).2.2.1, (isAlnumC_facts c (hs c hc)).2.2.2⟩
+  have h128 : ∀ c ∈ s, c < 128 := fun c hc => by have := (isAlnumC_facts c (hs c hc)).2.1; omega
+  refine ⟨by simp [printField, escapifyR_alnum s hs], lexes_plain s hne hpl, ?_, notHash_plain s hpl⟩
+  have hu := unescapeBytes_plain_ascii s hpl h128
+  have ha : asStringBytes maxTok ⟨.ident, s⟩ = some s := by
+    unfold asStringBytes
+    simp only [hu]
+    cases maxTok with
+    | none => rfl
+    | some m =>
+      have := h1 m rfl
+      have : ¬ (m ≠ 0 ∧ s.length > m) := by omega
+      simp [this]
+  have he : bytesMax maxBytes s = some s := by
+    unfold bytesMax
+    cases maxBytes with
+    | none => rfl
+    | some m =>
+      have := h2 m rfl
+      have : ¬ s.length > m := by omega
+      simp [this]
+  simp [parseField, ha, he]
 
 /-! ### IPv4 -/
 
